@@ -175,6 +175,8 @@ OVERLAYS = {
     # a changed structure string together with a PARTIAL position table, in one entry
     "O_spec_and_positions": {"DE": {"bban_spec": "8!n10!c", "positions": {"account_code": [8, 18]}},
                              "GB": {"bban_spec": "4!a6!n8!c", "positions": {"branch_code": [4, 10]}}},
+    # a country made longer without naming positions: the tail behind the last field is reserved
+    "O_longer": {"NL": {"bban_spec": "4!a12!n", "iban_spec": "NL2!n4!a12!n", "bban_length": 16, "iban_length": 20}},
     # keys that differ from an existing one only by case are NEW keys
     "O_lower_key": {"de": {"bban_length": 1, "iban_length": 5, "bban_spec": "1!n"}, "Xx": {"bban_length": 2, "iban_length": 6, "bban_spec": "2!a", "in_sepa_zone": True}},
 }
@@ -247,6 +249,26 @@ def api_checks(files: dict, table: dict):
         if k != "ok" or o.in_sepa_zone != de["in_sepa_zone"]:
             probs.append(("in_sepa_zone does not follow the effective data", de["in_sepa_zone"],
                           (k, getattr(o, "in_sepa_zone", None))))
+    nl = table.get("NL")
+    if isinstance(nl, dict) and nl.get("bban_length") == 16 and isinstance(nl.get("positions"), dict):
+        # generation follows the effective LENGTH (fields as published, the uncovered tail zero-filled)
+        pos = nl["positions"]
+        want_b = ["0"] * 16
+        for comp, val in (("bank_code", "ABNA"), ("account_code", "0417164300")):
+            a, b = pos[comp]
+            want_b[a:b] = list(val.rjust(b - a, "0"))
+        want_b = "".join(want_b)
+        for how, f in (("generate", lambda: str(lib.IBAN.generate("NL", "ABNA", "0417164300"))[4:]),
+                       ("from_components", lambda: str(lib.BBAN.from_components("NL", bank_code="ABNA",
+                                                                                account_code="0417164300")))):
+            k, o = lib.outcome(f)
+            if (k, o) != ("ok", want_b):
+                probs.append((f"{how} does not follow the effective length of a lengthened country", want_b, (k, o)))
+        k, o = lib.outcome(lambda: len(str(lib.IBAN.random("NL", random=__import__("random").Random(3)))))
+        if (k, o) != ("ok", 20):
+            probs.append(("random does not follow the effective length of a lengthened country", 20, (k, o)))
+        if lib.iban_parse("NL" + ri.check_digits("NL", "ABNA0417164300") + "ABNA0417164300")[0] == "ok":
+            probs.append(("old length still accepted for a lengthened country", "reject", "NL..ABNA0417164300"))
     gb = table.get("GB")
     if isinstance(gb, dict) and isinstance(gb.get("positions"), dict) and "bban_length" in gb:
         k, o = lib.outcome(lib.IBAN, "GB29NWBK60161331926819")
@@ -383,7 +405,10 @@ def iban_loader_shard(args):
     pool = {**{n: ("bundled", d) for n, d in bundled.items()}, **{n: ("overlay", d) for n, d in OVERLAYS.items()}}
     overlays = [n for n in chosen if pool[n][0] == "overlay"]
     fixed = {n: pool[n][1] for n in chosen if pool[n][0] == "bundled"}
-    for names in itertools.permutations(OVERLAY_NAMES, len(overlays)):
+    assignments = list(itertools.permutations(OVERLAY_NAMES, len(overlays)))
+    if tier == "quick" and len(overlays) == 3:
+        assignments = assignments[::5]   # 24 of the 120 file-name assignments (all of them in the thorough tier)
+    for names in assignments:
         files = dict(fixed)
         for o, nm in zip(overlays, names):
             files[nm] = OVERLAYS[o]
@@ -514,6 +539,8 @@ out["de_sepa"] = oc(lambda: IBAN("DE89370400440532013000").in_sepa_zone)
 out["gb_account"] = oc(lambda: IBAN("GB29NWBK60161331926819").account_code)
 out["lookup"] = oc(lambda: BIC.from_bank_code("DE", "99999999"))
 out["lookup_candidates"] = oc(lambda: [str(b) for b in BIC.candidates_from_bank_code("DE", "99999999")])
+out["de_national"] = oc(lambda: IBAN(sys.argv[3], validate_bban=True))
+out["de_bank_name"] = oc(lambda: IBAN(sys.argv[3]).bank_name)
 out["bg_bic"] = oc(lambda: IBAN(sys.argv[2]).bic)
 out["bg_bank_name"] = oc(lambda: IBAN(sys.argv[2]).bank_name)
 out["bg_bban_bic"] = oc(lambda: IBAN(sys.argv[2]).bban.bic)
@@ -539,7 +566,11 @@ def e2e_problems(cfg):
         env = dict(os.environ, PYTHONPATH=str(tmp))
         bg_bban = "ZZZZ" + "1234" + "10" + "12345678"
         bg_text = "BG" + ri.check_digits("BG", bg_bban) + bg_bban
-        p = subprocess.run([sys.executable, "-c", CHILD, text, bg_text], capture_output=True, text=True, env=env,
+        from ..ref import bbk
+        de_acct = next(a for a in ("1234567890", "1234567891", "1234567892", "1234567893") if bbk.verdict("13", a) is False)
+        de_bban = "37040044" + de_acct
+        de_text = "DE" + ri.check_digits("DE", de_bban) + de_bban
+        p = subprocess.run([sys.executable, "-c", CHILD, text, bg_text, de_text], capture_output=True, text=True, env=env,
                            cwd=str(tmp), timeout=300)
         line = [ln for ln in p.stdout.splitlines() if ln.startswith("OUT=")]
         if p.returncode != 0 or not line:
@@ -567,6 +598,18 @@ def e2e_problems(cfg):
         want = ["ok", str(cands)] if cands is not None else ["raises", "InvalidBankCode"]
         if out["lookup_candidates"] != want:
             probs.append(("end-to-end: candidates for overlay bank", want, out["lookup_candidates"]))
+        # national validation of a German IBAN takes the method from the bank the lookup yields: the
+        # FIRST entry of the effective (file-name ordered) list for that bank code
+        des = lookup.index_by_key(exp_banks).get(("DE", "37040044")) or []
+        first = des[0] if des else None
+        algo = first.get("checksum_algo") if first else None
+        want_nat = "ok" if (algo is None or bbk.verdict(algo, de_acct) is not False) else "raises"
+        if out["de_national"][0] != want_nat:
+            probs.append(("end-to-end: national validation does not follow the first effective entry of the bank",
+                          {"first_entry": first, "expected": want_nat}, out["de_national"]))
+        if out["de_bank_name"] != ["ok", str(first["name"] if first else None)]:
+            probs.append(("end-to-end: bank name does not follow the first effective entry of the bank",
+                          first, out["de_bank_name"]))
         # the bank-identifying key of an IBAN is the listed components JOINED IN THE LISTED ORDER
         bg = exp_table.get("BG", {})
         if isinstance(bg.get("positions"), dict):
@@ -601,7 +644,11 @@ def e2e_configs():
                 "primary": True}
     bg_banks = [bg("ZZZZ10", "ZZZZBGZZ", "gap"), bg("ZZZZ123410", "YYYYBGYY", "run"), bg("ZZZZ", "XXXXBGXX", "plain"),
                 bg("1234ZZZZ", "WWWWBGWW", "reversed"), bg("ZZZZ1234", "VVVVBGVV", "forward")]
+    de_dup = [{"country_code": "DE", "bank_code": "37040044", "bic": "COBADEFFXXX", "name": "custom entry without method",
+               "short_name": "custom", "primary": True}]
     return [
+        ("same German code without a method in a file sorting FIRST", {}, {"custom_de.json": de_dup}),
+        ("same German code without a method in a file sorting LAST", {}, {"zz_de.json": de_dup}),
         ("lookup components with a gap between them", {"zz_last.json": {"BG": {"bic_lookup_components": [
             "bank_code", "account_type"]}}}, {"zz_bank.json": bg_banks}),
         ("lookup components in reverse order", {"zz_last.json": {"BG": {"bic_lookup_components": [
